@@ -44,7 +44,8 @@ ROOT == "root"
 Arr(k) == "arr_" \o k
 ArrObjs == {Arr(k) : k \in ArrKeys}
 KeyOfArr(a) == CHOOSE k \in ArrKeys : Arr(k) = a
-Obj == {ROOT} \cup ArrObjs \cup Elem
+RAW == "raw"                               \* an object handled through the object-level API only
+Obj == {ROOT} \cup ArrObjs \cup Elem \cup (IF "objapi" \in Feat THEN {RAW} ELSE {})
 NoRev == <<>>
 
 RIdx(rev) == Len(rev)
@@ -212,6 +213,7 @@ EditRevs(r, d) ==
         IF o = ROOT THEN NewRevs(r, o, CR(d.rv, KeysOf(d)))
         ELSE IF o \in ArrObjs
              THEN IF KeyOfArr(o) \in d.ks THEN NewRevs(r, o, CA(d.ord[KeyOfArr(o)])) ELSE DelRevs(r, o)
+        ELSE IF o = RAW THEN DelRevs(r, o)           \* update() deletes every tracked object that is not in the document
         ELSE IF \E k \in d.ks : In(d.ord[k], o) THEN NewRevs(r, o, CV(d.ev[o])) ELSE DelRevs(r, o)]
 
 Storable(c) == c.k \notin {"d", "r"}
@@ -226,6 +228,35 @@ Edit(r, d) ==
     /\ cnt' = Bump("edits")
     /\ act' = [n |-> "Edit", r |-> r, d |-> d]
     /\ sched' = Append(sched, [op |-> "update", r |-> RIndex(r), d |-> d])
+    /\ UNCHANGED <<store, known, applied, apacks, up>>
+
+-----------------------------------------------------------------------------
+(* the object-level API used directly: create_object / update_object / delete_object / remove_object *)
+StageOne(r, o, new, name, v) ==
+    /\ staged' = [staged EXCEPT ![r][o] = @ \cup new]
+    /\ sobjs' = [sobjs EXCEPT ![r] = @ \cup StageObjs(r, new)]
+    /\ cnt' = Tick
+    /\ act' = [n |-> name, r |-> r, o |-> o]
+    /\ sched' = Append(sched, [op |-> name, r |-> RIndex(r), o |-> 0, val |-> v])
+    /\ UNCHANGED <<store, known, applied, apacks, up>>
+ObjCreate(r, v) ==      \* records a creation revision whether or not the object is already tracked
+    /\ "objapi" \in Feat /\ up[r] /\ Budget
+    /\ StageOne(r, RAW, IF \E e \in Tree(r, RAW) : e.rev = <<CV(v)>> THEN {} ELSE {<<CV(v)>>}, "obj_create", v)
+ObjUpdate(r, v) ==
+    /\ "objapi" \in Feat /\ up[r] /\ Budget
+    /\ (Tree(r, RAW) = {} \/ W(r, RAW) # NoRev)
+    /\ StageOne(r, RAW, NewRevs(r, RAW, CV(v)), "obj_update", v)
+ObjDelete(r) ==
+    /\ "objapi" \in Feat /\ up[r] /\ Budget
+    /\ StageOne(r, RAW, DelRevs(r, RAW), "obj_delete", 0)
+ObjRemove(r) ==         \* drops the object's staged revisions; deletes it if it has a committed history
+    /\ "objapi" \in Feat /\ up[r] /\ Budget /\ Tree(r, RAW) # {}
+    /\ LET T == TreeC(r, RAW)  w == Core!Winner(T) IN
+       /\ staged' = [staged EXCEPT ![r][RAW] = IF T = {} \/ w = NoRev \/ RIsDel(w) \/ RIsRes(w) THEN {} ELSE {Append(w, DEL)}]
+       /\ UNCHANGED sobjs
+    /\ cnt' = Tick
+    /\ act' = [n |-> "obj_remove", r |-> r, o |-> RAW]
+    /\ sched' = Append(sched, [op |-> "obj_remove", r |-> RIndex(r), o |-> 0, val |-> 0])
     /\ UNCHANGED <<store, known, applied, apacks, up>>
 
 -----------------------------------------------------------------------------
@@ -507,6 +538,7 @@ Step ==
         \/ CommitOK(r) \/ CommitCrash(r) \/ CommitFail(r) \/ EmptyCommit(r)
         \/ Refresh(r) \/ Reload(r) \/ Reopen(r) \/ Crash(r)
         \/ Unstage(r) \/ Snapshot(r)
+        \/ (\E v \in Val : ObjCreate(r, v) \/ ObjUpdate(r, v)) \/ ObjDelete(r) \/ ObjRemove(r)
         \/ \E o \in Obj : \E lf \in Leaves(r, o) : Resolve(r, o, lf)
         \/ \E H \in HeadSetsSeen : ReloadUntil(r, H)
         \/ \E s \in Replica \ {r} : Meld(r, s) \/ MeldCrash(r, s) \/ \E it \in store[s] : Copy(r, s, it)
